@@ -251,6 +251,9 @@ type Target struct {
 	// variable and `if L = e; cond {` over a declared lvalue (see iotargets.go).
 	LoopBody bool
 	IO       bool
+	// CallTrace (calltrace.go): call expression (source text) -> marker appended to the trace
+	// variable `tr` by the statement that evaluates the call.
+	CallTrace map[string]string
 }
 
 type fnctx struct {
@@ -523,6 +526,9 @@ func (c *fnctx) stmts(list []ast.Stmt, rest string) string {
 		return pre + " " + tail()
 	}
 	if out, ok := c.stmtIOExt(list, rest); ok { // iotargets.go (opt-in: Target.IO)
+		return out
+	}
+	if out, ok := c.stmtTrace(list, rest); ok { // calltrace.go
 		return out
 	}
 	if out, ok := c.stmtMap(list, rest); ok { // mapext.go
@@ -987,6 +993,9 @@ func (t *translator) emitFunc(tg *Target, w *bytes.Buffer) {
 	if tg.RetFmt != "" {
 		fmt.Fprintf(w, "   every returned value v is  %s\n", strings.ReplaceAll(tg.RetFmt, "%s", "v"))
 	}
+	for _, k := range sortedKeys(tg.CallTrace) {
+		fmt.Fprintf(w, "   traced call: %s  =>  the statement that evaluates it appends %s to tr\n", k, tg.CallTrace[k])
+	}
 	keys := []string{}
 	for k := range tg.Hints {
 		keys = append(keys, k)
@@ -1329,6 +1338,9 @@ func main() {
 		writeIfChanged(filepath.Join(*out, f+".v"), w.Bytes())
 		fmt.Printf("go2v: %s.v %d functions\n", f, len(byFile[f]))
 	}
+
+	// GenHelperCensus.v (C10): Close / SendSystemError / Flush calls of the helper layers (helptargets.go)
+	emitHelperCensus(byName, *repo, *out)
 
 	// GenSites.v
 	w.Reset()
